@@ -210,7 +210,7 @@ def r3(ctx):
     if hd:
         t = hd[0].value
         if isinstance(t, ast.Compare):
-            ncase, bad = check_pred(t, lambda e: e['d'] <= e['k'], symbols=['d', 'k'], atom_name=lambda x: 'd' if 'hamming_distance(' in src(x) else ('k' if src(x) == 'self.umi_hamming_distance' else None))
+            ncase, bad = check_pred(t, lambda e: e['d'] <= e['k'], symbols=['d', 'k'], atom_name=lambda x: 'd' if (isinstance(x, ast.Call) and dotted(x.func) == 'hamming_distance') else ('k' if src(x) == 'self.umi_hamming_distance' else None))
             ctx.emit('C06-R3', not bad, FRAGMENT, hd[0], f'UMI distance test `{src(t)[:60]}` == distance <= allowed' if not bad else f'differs: {bad[0]}', key='umi_eq:threshold')
     # NlaIII / CHIC match hashes
     for relpath, cls in ((FRAG_NLA, 'NlaIIIFragment'), (FRAG_CHIC, 'CHICFragment')):
